@@ -410,3 +410,25 @@ def gen_module(work, name, extends, defs):
 class Raw(object):
     def __init__(self, text):
         self.text = text
+
+
+# --------------------------------------------------------------------------
+_PMAP_FN = None
+
+
+def _pmap_call(args):
+    return _PMAP_FN(*args)
+
+
+def pmap(fn, arglist, procs=None, chunksize=64):
+    """Run fn(*args) for every args tuple, in forked worker processes (the repository
+    modules already imported in the parent are inherited). Order is preserved."""
+    global _PMAP_FN
+    arglist = list(arglist)
+    if len(arglist) < 200:
+        return [fn(*a) for a in arglist]
+    import multiprocessing as mp
+    _PMAP_FN = fn
+    ctx = mp.get_context('fork')
+    with ctx.Pool(procs or NCPU) as pool:
+        return pool.map(_pmap_call, arglist, chunksize=chunksize)
